@@ -112,3 +112,49 @@ async def run_set_call(tbl, idx, triple, value, retries, timeout, events, tracki
         except BaseException:  # noqa: BLE001
             pass
     return outs, [p.values.value, p.values.min_value, p.values.max_value], after_call
+
+
+async def run_session(tbl, idx, triple, calls, tracking, sub_index=0, timeout=5.0):
+    """Several set() calls on ONE parameter object, each driven through its events.
+    Returns per call: (outs per point, triple held before the call, triple right after the call)."""
+    from pyplumio.helpers.parameter import ParameterValues
+    p, queue, sc, rc, dec = make_param(tbl, idx, triple, tracking, sub_index)
+    results = []
+
+    async def settle():
+        for _ in range(6):
+            await asyncio.sleep(0)
+
+    for value, retries, events in calls:
+        before = [p.values.value, p.values.min_value, p.values.max_value]
+        task = asyncio.ensure_future(p.set(value, retries=retries, timeout=timeout))
+        reported = [False]
+
+        def result_outs():
+            if task.done() and not reported[0]:
+                reported[0] = True
+                exc = task.exception()
+                if exc is None:
+                    return [[2, bool(task.result())]]
+                return [[3]] if isinstance(exc, ValueError) else [["other-exception", type(exc).__name__]]
+            return []
+
+        await settle()
+        outs = [drain(queue, sc, rc, dec) + result_outs()]
+        after_call = [p.values.value, p.values.min_value, p.values.max_value]
+        for ev in events:
+            if ev[0] == 0:
+                await asyncio.sleep(timeout)
+            else:
+                t = ev[1]
+                p.update(ParameterValues(value=t[0], min_value=t[1], max_value=t[2]))
+            await settle()
+            outs.append(drain(queue, sc, rc, dec) + result_outs())
+        if not task.done():
+            task.cancel()
+            try:
+                await task
+            except BaseException:  # noqa: BLE001
+                pass
+        results.append([outs, before, after_call])
+    return results
